@@ -127,6 +127,8 @@ type Ctx struct {
 	Seed      int64
 	Rng       *rand.Rand
 	Drv       *Driver
+	GenDrv    *Driver // the driver over the translated code (nil when it is not available)
+	genTies   int
 	DrvPath   string
 	VerifDir  string
 	RepoDir   string
@@ -231,7 +233,7 @@ func (c *Ctx) Fail(f Failure) {
 // Probe evaluates f in a scratch context that shares the driver and the known findings but records
 // nothing into this run; it returns the failures f produced (used by shrinkers).
 func (c *Ctx) Probe(f func(*Ctx)) []Failure {
-	p := &Ctx{Prop: c.Prop, Tier: c.Tier, Seed: c.Seed, Rng: rand.New(rand.NewSource(c.Seed)), Drv: c.Drv, DrvPath: c.DrvPath,
+	p := &Ctx{Prop: c.Prop, Tier: c.Tier, Seed: c.Seed, Rng: rand.New(rand.NewSource(c.Seed)), Drv: c.Drv, GenDrv: c.GenDrv, DrvPath: c.DrvPath,
 		VerifDir: c.VerifDir, RepoDir: c.RepoDir, Thorough: c.Thorough, start: c.start,
 		distinct: map[[16]byte]bool{}, classes: map[string]int{}, knownHits: map[string]int{}, notes: map[string]interface{}{}, known: c.known}
 	f(p)
@@ -471,4 +473,19 @@ func obStr(ob *Obligations) string {
 		return "n/a"
 	}
 	return fmt.Sprintf("%d/%d", ob.Discharged, ob.Obligations)
+}
+
+// GenTie asks the driver over the TRANSLATED code (Gen.lean, regenerated from the Go source) the same question
+// the hand-written model answered with `model`; a different answer is a correspondence failure of its own kind:
+// the translator, the abstraction of the refinement theorems, or the model is wrong about this input.
+func (c *Ctx) GenTie(cs Case, what, model, op string, args ...string) {
+	if c.GenDrv == nil {
+		return
+	}
+	g := c.GenDrv.Ask(op, args...)
+	c.genTies++
+	c.notes["translated_code_ties"] = c.genTies
+	if g != model {
+		c.Fail(Failure{Kind: "tie", What: what + ": the code translated from the Go source (Gen.lean) and the hand-written Impl model disagree", Case: cs, Model: clip(model), Go: "translated: " + clip(g)})
+	}
 }
